@@ -34,7 +34,7 @@ CHECK_DEADLOCK FALSE
 
 TRANSLATABLE = ["two", "id", "neg", "dbl", "inc", "add", "sub", "mul", "mad", "step", "sel", "cut", "swp", "pos"]
 UNTRANSLATABLE = {"loopinc", "dsum"}
-OPTIONAL = ["dflt", "cap", "kwo"]   # a translator may refuse these or translate them correctly, never wrongly
+OPTIONAL = ["dflt", "cap", "kwo", "lg2"]   # a translator may refuse these or translate them correctly, never wrongly
 
 
 def fnset(names) -> str:
